@@ -185,14 +185,14 @@ class MTree:
     def add_node(self, p: MNode | None, src: MNode, deep=False, before=None, kind=None, src_tree: "MTree | None" = None, node_id=None):
         """P.add_child(S) - S from this tree (src_tree None) or another model tree."""
         K = self.kids(p)
+        if node_id is not None and deep:
+            return Refuse(INVALID, "ids are not allowed for deep copies")
         if any(c.data_id == src.data_id for c in K):
             return self._refuse_uniq(K, before)
         pos = self._position(K, before)
         if not isinstance(pos, int):
             return pos
         if node_id is not None:
-            if deep:
-                return Refuse(INVALID, "ids are not allowed for deep copies")
             if any(x.node_id == node_id for x in self.all()):
                 return Unspec("duplicate node_id")
         n = self._copy_branch(src, deep, kind)  # snapshot of the branch *before* inserting
